@@ -97,7 +97,7 @@ func genExpCase(t *rapid.T) *expCase {
 		m := 1
 		if rapid.Bool().Draw(t, "group") {
 			m = rapid.IntRange(2, 6).Draw(t, "m")
-			it.Mine = rapid.IntRange(0, 5).Draw(t, "mine") == 0
+			it.Mine = rapid.IntRange(0, 24).Draw(t, "mine") == 0
 		}
 		for j := 0; j < m; j++ {
 			it.Expire = append(it.Expire, genExpire())
